@@ -24,6 +24,56 @@ ASSUMPTIONS = ["rustc THIR/MIR is a faithful view of the source"]
 NAMEMAP = ("NameMap::get_name_leaf", "NameMap::get_name_qualified")
 
 
+def descriptor_table(f, ab):
+    """ObjectType variant -> DescriptorType variant as analyse_bindings computes it: the match that yields a
+    DescriptorType is read by evaluation (finite-map reader) for every ObjectType variant, so nested or merged arms and
+    helper functions do not matter. Falls back to reading flat arms."""
+    import interp as I
+    tab = {}
+    objs = f.adt("ir_types::ObjectType", "rssl_ir")
+    cands = []
+    for b_ in F.family(f, ab, depth=1):
+        for m in F.exprs(b_["thir"], "Match"):
+            st = F.strip(m["scrut"]).get("ty", "").replace("&", "").strip()
+            if st.endswith("TypeLayer") and "DescriptorType" in (m.get("ty") or "") and F.strip(m["scrut"]).get("k") == "Var":
+                cands.append(m)
+    if objs and cands:
+        m = max(cands, key=lambda x: sum(1 for _ in F.walk(x)))
+        sv = F.strip(m["scrut"])
+        ip = I.Interp(f, max_depth=6)
+        for v in objs["variants"]:
+            val = I.Enum("TypeLayer", "Object", {"0": I.Enum("ObjectType", v["name"], {str(i): I.Opaque("payload") for i in range(len(v["fields"]))})})
+            try:
+                r = ip.ev(m, {sv["id"]: val})
+                if isinstance(r, I.Enum) and r.adt == "DescriptorType":
+                    tab[v["name"]] = r.variant
+            except (I.Unknown, I.ReturnEx):
+                pass
+        try:
+            r = ip.ev(m, {sv["id"]: I.Enum("TypeLayer", "Scalar", {"0": I.Enum("ScalarType", "Float32")})})
+            if isinstance(r, I.Enum) and r.adt == "DescriptorType":
+                tab["<non-object>"] = r.variant
+        except (I.Unknown, I.ReturnEx):
+            pass
+        if len(tab) >= 10:
+            return tab
+    tab = {}
+    for m in F.find_matches(ab, "TypeLayer"):
+        for arm in m["arms"]:
+            d = F.adt_ctor(F.tail(arm["body"]))
+            if not d or d[0] != "DescriptorType":
+                continue
+            for alt in F.pat_alternatives(arm["pat"]):
+                if F.pat_variant(alt) == ("TypeLayer", "Object"):
+                    inner = F.pat_sub(alt, "0")
+                    pv = F.pat_variant(inner) if inner else None
+                    if pv:
+                        tab[pv[1]] = d[1]
+                elif F.pat_is_catchall(alt):
+                    tab["<non-object>"] = d[1]
+    return tab
+
+
 def has_step(path, name):
     return any(s[0] == "f" and s[1] == name for s in path)
 
@@ -85,20 +135,7 @@ def run(chk):
                    "register_binding is no longer guarded by `if let Some(api_slot) = decl.api_slot`", where(ab, c))
         chk.floor("C05.floor/%s/register-calls" % tgt, len(regs), 2 if tgt == "hlsl" else 1, "register_binding calls", where(ab))
         # descriptor type table
-        tab = {}
-        for m in F.find_matches(ab, "TypeLayer"):
-            for arm in m["arms"]:
-                d = F.adt_ctor(F.tail(arm["body"]))
-                if not d or d[0] != "DescriptorType":
-                    continue
-                for alt in F.pat_alternatives(arm["pat"]):
-                    if F.pat_variant(alt) == ("TypeLayer", "Object"):
-                        inner = F.pat_sub(alt, "0")
-                        pv = F.pat_variant(inner) if inner else None
-                        if pv:
-                            tab[pv[1]] = d[1]
-                    elif F.pat_is_catchall(alt):
-                        tab["<non-object>"] = d[1]
+        tab = descriptor_table(f, ab)
         tables[tgt] = (ab, tab)
         chk.floor("C05.floor/%s/descriptor-types" % tgt, len(tab), 21, "ObjectType -> DescriptorType entries", where(ab))
         # descriptor_count shape
@@ -164,7 +201,39 @@ def rule_annotations(chk):
                        "the printed register %s is not a pure copy of slot.%s (%s)" % (fld, want, sorted({TF.describe(o)[:60] for o in org})[:3]), where(fn, a))
     # space omitted exactly when set == 0
     fn = f.fn("generate_register_annotation", "rssl_hlsl")
+    evaluated = False
     if fn:
+        # generate_register_annotation read as a table over (group, index, register type)
+        import interp as I
+        ip = I.Interp(f, max_depth=6)
+        bad = []
+        try:
+            r0 = ip.apply(fn, [I.Enum("Option", "None")])
+            if not (isinstance(r0, I.Enum) and r0.variant == "Ok" and isinstance(r0.fields.get("0"), I.Enum) and r0.fields["0"].variant == "None"):
+                bad.append("an unbound declaration gets %r, must get no register annotation" % (r0,))
+            for s_ in (0, 1, 5):
+                for i_ in (0, 3):
+                    for rt in ("T", "U"):
+                        slot = I.Enum("Option", "Some", {"0": I.Enum("ApiBinding", None, {"set": s_, "location": I.Enum("ApiLocation", "Index", {"0": i_}),
+                                                                                       "slot_type": I.Enum("Option", "Some", {"0": I.Enum("RegisterType", rt)})})})
+                        r = ip.apply(fn, [slot])
+                        reg = r.fields["0"].fields["0"] if isinstance(r, I.Enum) and r.variant == "Ok" and isinstance(r.fields.get("0"), I.Enum) and r.fields["0"].variant == "Some" else None
+                        sl = reg.fields.get("slot") if isinstance(reg, I.Enum) else None
+                        sp = reg.fields.get("space") if isinstance(reg, I.Enum) else None
+                        got = None
+                        if isinstance(sl, I.Enum) and sl.variant == "Some" and isinstance(sp, I.Enum):
+                            rs = sl.fields["0"]
+                            got = (rs.fields["slot_type"].variant, rs.fields["index"], sp.fields.get("0") if sp.variant == "Some" else None)
+                        want = (rt, i_, None if s_ == 0 else s_)
+                        if got != want:
+                            bad.append("slot (group %d, index %d, type %s) is annotated %s, must be register(%s%d%s)" % (s_, i_, rt, (got,), rt.lower(), i_, "" if s_ == 0 else ", space%d" % s_))
+            evaluated = True
+        except (I.Unknown, KeyError, AttributeError, TypeError):
+            evaluated = False
+        if evaluated:
+            chk.ob("C05.slot/hlsl/space-omitted-iff-zero", not bad, "register(<type><index>[, space<group>]) equals the api slot for 12 slots; space is printed iff the group is not 0" if not bad else
+                   "generate_register_annotation: %s (%d case(s)): the emitted source and the reported binding disagree" % (bad[0], len(bad)), where(fn))
+    if fn and not evaluated:
         ok = False
         for iff in F.exprs(fn["thir"], "If"):
             c = F.strip(iff["cond"])
@@ -335,6 +404,32 @@ def rule_used(chk):
             if r.get("k") == "Call" and short(r.get("fn") or "") == "contains":
                 g = [x for x in F.exprs(r, "Adt") if short(x["adt"]) == "ImplicitFunctionParameter" and x.get("variant") == "Global"]
                 ok_assign = bool(g) and any(x.get("name") == "id" for x in F.exprs(g[0], "Field"))
+    if not ok_assign:
+        # the same membership test written another way (`iter().any(|g| *g == Global(argument.id))`): read by evaluation
+        import interp as I
+        for a in F.exprs(gp["thir"], "Assign"):
+            l = F.strip(a["l"])
+            if not (l.get("k") == "Field" and l["name"] == "is_used"):
+                continue
+            rhs = a["r"]
+            lets_ = F.let_table(gp["thir"])
+            vs = {v["id"]: v for v in F.exprs(F.inline_lets(gp["thir"], rhs), "Var")}
+            lists = [i for i, v in vs.items() if "ImplicitFunctionParameter" in v.get("ty", "") and ("Vec<" in v.get("ty", "") or "[" in v.get("ty", ""))]
+            args_ = [i for i, v in vs.items() if i not in lists]
+            if len(lists) != 1 or len(args_) != 1:
+                continue
+            G = lambda k: I.Enum("ImplicitFunctionParameter", "Global", {"0": I.Enum("GlobalId", None, {"0": k})})
+            used = [G(7), I.Enum("ImplicitFunctionParameter", "ThreadIndexInSimdgroup"), G(2), G(5)]
+            res = []
+            try:
+                for k in (2, 3, 5, 7, 9):
+                    arg = I.Enum("Argument", None, {"id": I.Enum("GlobalId", None, {"0": k}), "metadata": I.Enum("DescriptorBinding", None, {"is_used": False})})
+                    ipu = I.Interp(f, max_depth=4)
+                    ipu.lets = lets_
+                    res.append(ipu.ev(rhs, {lists[0]: used, args_[0]: arg}))
+                ok_assign = res == [True, False, True, True, False]
+            except (I.Unknown, I.ReturnEx):
+                pass
     for (p, it, body, node) in F.for_loops(gp["thir"]):
         its = F.strip(it)
         if its.get("k") == "Field" and its["name"] == "stages" and body is not None:
